@@ -249,6 +249,24 @@ func (p *prov) compute(v ssa.Value, d int) []string {
 		}
 		return suffixAll(p.origins(x.X, d+1), s)
 	case *ssa.Slice:
+		// a slice of a local array (the backing array of variadic arguments): what was stored into it
+		if al, ok := x.X.(*ssa.Alloc); ok {
+			if _, isArr := al.Type().Underlying().(*types.Pointer).Elem().Underlying().(*types.Array); isArr {
+				var out []string
+				for _, ref := range *al.Referrers() {
+					if ia, ok := ref.(*ssa.IndexAddr); ok {
+						for _, rr := range *ia.Referrers() {
+							if st, ok := rr.(*ssa.Store); ok && st.Addr == ssa.Value(ia) {
+								out = append(out, p.origins(st.Val, d+1)...)
+							}
+						}
+					}
+				}
+				if len(out) > 0 {
+					return uniq(out)
+				}
+			}
+		}
 		return suffixAll(p.origins(x.X, d+1), "[:]")
 	case *ssa.UnOp:
 		if x.Op == token.MUL {
